@@ -311,6 +311,9 @@ func checkC13(w *World, r *Report) {
 	r.Sub(checkC08, "TIME-POL")
 	// the agreed extended-round rate and the counts compared with it are not changed by the comparison itself
 	checkNoMut(w, r, tm, "NO-MUT")
+	// an extension that fails (the end-time setter, the store write) is reported, not taken for done: otherwise the
+	// round counter does not advance and the auction is extended for ever
+	r.Sub(checkC07, "BB-ERRPROP")
 }
 
 type endWriteRule struct {
